@@ -544,3 +544,4 @@ CONTRACTS.append(build_connectivity_matrix)
 from contracts import graph_utils as _gu
 CONTRACTS.append(_gu.collect_residues('C15'))
 CONTRACTS.append(_gu.partition_graph('C15'))
+CONTRACTS.append(_gu.make_residue_graph('C15'))
